@@ -32,7 +32,7 @@ static void run_tag(bool feature) {
 
     // ---- oracle (one term per dimension, no branching) ----
     std::vector<Sel> sel(rank);
-    bool ok = true, pad_wrong = false;
+    bool ok = true, pad_wrong = false, zone = false;
     bool whole = feature && lt != LinkType::Tagged;                        // untagged / indexed features are returned whole
     for (size_t d = 0; d < rank; d++) {
         if (whole || d >= L) {
@@ -48,7 +48,9 @@ static void run_tag(bool feature) {
         double e = has_extent ? pos[d] + ext[d] : pos[d];
         sel[d] = select_axis(r.ax[d], r.ext[d], pos[d], e, match == RangeMatch::Inclusive, point);
         ok = ok & sel[d].ok;
+        zone = zone | axis_eps_zone(r.ax[d], pos[d]) | axis_eps_zone(r.ax[d], e);
     }
+    nixsym_finding("C07-eps-zone", zone);
     nixsym_finding("C05-unspecified-dimension-padding", pad_wrong);
 
     bool threw = false;
